@@ -11,8 +11,68 @@ import re._constants as sre_c
 from .. import astutil as A
 from ..fa import FA
 from ..loader import AnalysisError
+from .fresh import flow_nodes, attr_writes, at_of, reaches_avoiding
 
 FR = "reference.FunctionReference"
+
+FIRST_CUTS = ("find", "index", "partition", "split")
+LAST_CUTS = ("rfind", "rindex", "rpartition", "rsplit")
+
+
+def _cut_calls(nodes, sep):
+    """(first, last): the calls among `nodes` that look for the FIRST / the LAST occurrence of `sep` in a string."""
+    first, last = [], []
+    for n in nodes:
+        if isinstance(n, ast.Call) and isinstance(n.func, ast.Attribute) and n.args and A.const_str(n.args[0]) == sep:
+            if n.func.attr in FIRST_CUTS:
+                first.append(n)
+            elif n.func.attr in LAST_CUTS:
+                last.append(n)
+    return first, last
+
+
+def _glue_literals(fa, max_len=2):
+    """Short literal pieces of the strings the function builds, whatever the spelling ('+', +=, format, f-string)."""
+    out = set()
+    for n in A.walk_body(fa.node):
+        if isinstance(n, (ast.BinOp, ast.JoinedStr, ast.Call)):
+            p = A.str_parts(n)
+            if p:
+                out |= {v for k, v in p if k == "lit" and 0 < len(v) <= max_len}
+        elif isinstance(n, ast.AugAssign) and isinstance(n.op, ast.Add):
+            p = A.str_parts(n.value)
+            if p:
+                out |= {v for k, v in p if k == "lit" and 0 < len(v) <= max_len}
+    return out
+
+
+def _flat_parts(e):
+    """A.str_parts with every '+' chain flattened, also when an operand is not itself a recognisable string
+    expression (a conditional prefix, a name): such operands stay ('expr', node) parts."""
+    if isinstance(e, ast.BinOp) and isinstance(e.op, ast.Add):
+        return A._merge(_flat_parts(e.left) + _flat_parts(e.right))
+    p = A.str_parts(e)
+    return p if p is not None else [("expr", e)]
+
+
+def _prefix_before_first(fa, call, sep):
+    """Is the cut call used to take what PRECEDES the first `sep`:  s[:s.find(sep)],  s.partition(sep)[0],
+    s.split(sep[, n])[0],  head, _, _ = s.partition(sep) ?"""
+    p = fa.pm.get(call)
+    nm = call.func.attr
+    if nm in ("find", "index"):
+        return isinstance(p, ast.Slice) and p.upper is call and (p.lower is None or (isinstance(p.lower, ast.Constant) and p.lower.value == 0)) and p.step is None
+    if nm in ("partition", "split"):
+        if isinstance(p, ast.Subscript) and p.value is call and isinstance(p.slice, ast.Constant) and p.slice.value == 0:
+            return True
+        if isinstance(p, ast.Assign) and p.value is call and len(p.targets) == 1 and isinstance(p.targets[0], (ast.Tuple, ast.List)) and p.targets[0].elts \
+                and isinstance(p.targets[0].elts[0], ast.Name):
+            # the first unpacked part is the one that is used afterwards; the others are not
+            head = p.targets[0].elts[0].id
+            rest = {e.id for e in p.targets[0].elts[1:] if isinstance(e, ast.Name)}
+            used = {n.id for n in A.walk_body(fa.node) if isinstance(n, ast.Name) and isinstance(n.ctx, ast.Load)}
+            return head in used and not (rest & used - {head})
+    return False
 
 
 def _group_class(tree, gid):
@@ -322,50 +382,55 @@ def check(ck):
     if shape is not None:
         d_cluster, d_module, d_version = shape
         ini = FA(ck, FR + ".__init__")
-        lits = set(A.strings_in(ast.Module(body=[s for s in ini.node.body if not (isinstance(s, ast.Expr) and isinstance(s.value, ast.Constant))], type_ignores=[])))
+        # the delimiters the reference's qualified name is glued with: the short constants in the value flow of
+        # what is stored as self._qualified_name (through temporaries, +=, tuple assignments, helper results)
         concat = set()
-        for n in A.walk_body(ini.node):
-            if isinstance(n, (ast.BinOp, ast.AugAssign)) and isinstance(n.op, ast.Add):
-                for s in A.strings_in(n):
-                    if len(s) <= 2:
-                        concat.add(s)
-        qn = [s_ for s_ in ini.stmts(ast.Assign) if any(A.dotted(t) == "self._qualified_name" for t in s_.targets)]
-        if len(qn) == 1:
-            dq = ini.deps(qn[0].value)
-            concat = {x[7:-1] for x in dq if x.startswith("const:'") and len(x[7:-1]) <= 2}
+        qn = attr_writes(ini, "self._qualified_name")
+        for (st_, v_, _aug) in qn:
+            if ini.nodes(st_):
+                concat |= {x[7:-1] for x in ini.deps(v_, ini.nodes(st_)[0]) if x.startswith("const:'") and len(x[7:-1]) <= 2}
+        if not qn:
+            concat = _glue_literals(ini)
         ok = {d_cluster, d_module, d_version} <= concat
         ck.ob(R2, ini.key(None, "delimiters"), ok, "the reference is built with %s, the pattern's delimiters" % sorted(concat) if ok else
               "FunctionReference builds names with %s but the parser splits on %s" % (sorted(concat), [d_cluster, d_module, d_version]), ini.where())
         mi = FA(ck, "memento.MementoFunction.__init__")
-        concat2 = set()
-        for n in A.walk_body(mi.node):
-            if isinstance(n, (ast.BinOp, ast.AugAssign)) and isinstance(n.op, ast.Add):
-                for s in A.strings_in(n):
-                    if len(s) <= 2:
-                        concat2.add(s)
+        concat2 = _glue_literals(mi)
         ok2 = {d_cluster, d_module} <= concat2
         ck.ob(R2, mi.key(None, "delimiters"), ok2, "the unversioned name uses the same cluster and module delimiters" if ok2 else
               "MementoFunction builds its unversioned name with %s, the parser expects %s" % (sorted(concat2), [d_cluster, d_module]), mi.where())
-        mq = [s for s in mi.stmts(ast.AugAssign) if A.dotted(s.target) == "self.qualified_name_without_version" and "__module__" in A.norm(s.value)]
-        ok3 = len(mq) == 1 and A.norm(mq[0].value) == "fn.__module__ + %r + fn.__qualname__" % d_module
+        # the unversioned name ends with <fn>.__module__ + ':' + <fn>.__qualname__, and that write is the last one
+        def _mod_fn_tail(v_, at_):
+            p_ = _flat_parts(mi.expand(v_, at_))
+            if not p_ or len(p_) < 3:
+                return False
+            (k1, a1), (k2, a2), (k3, a3) = p_[-3:]
+            return k1 == "expr" and k2 == "lit" and k3 == "expr" and a2 == d_module and isinstance(a1, ast.Attribute) and a1.attr == "__module__" \
+                and isinstance(a3, ast.Attribute) and a3.attr == "__qualname__" and A.norm(a1.value) == A.norm(a3.value)
+        writes = [(st_, v_, aug_) for (st_, v_, aug_) in attr_writes(mi, "self.qualified_name_without_version") if mi.nodes(st_)]
+        tails = [st_ for (st_, v_, aug_) in writes if _mod_fn_tail(v_, mi.nodes(st_)[0])]
+        tail_nodes = mi.nodes_all(tails)
+        ok3 = bool(tails) and mi.cfg.must_pass(tail_nodes, mi.cfg.exit)
+        if ok3:
+            after = mi.cfg.reach(tail_nodes, include_start=False)
+            ok3 = not any(i in after for (st_, v_, aug_) in writes if st_ not in tails for i in mi.nodes(st_))
         ck.ob(R2, mi.key(None, "module-function"), ok3, "unversioned name = module%sfunction qualname" % d_module if ok3 else
               "the unversioned name is no longer module + %r + qualname" % d_module, mi.where())
         rs = ck.repo.func("code_hash.resolve_to_symbolic_names").nested.get("resolve_to_symbol")
         # (when the nested helper was inlined into its only caller, the cut is looked for there)
         rfa = FA(ck, rs if rs is not None else ck.repo.func("code_hash.resolve_to_symbolic_names"))
-        # X = X[0:X.find('#')] ... for a local X holding the versioned qualified name
-        cut = []
-        for s_ in rfa.stmts(ast.Assign):
-            if len(s_.targets) == 1 and isinstance(s_.targets[0], ast.Name):
-                x_ = s_.targets[0].id
-                if "%s.find(%r)" % (x_, d_version) in A.norm(s_.value) and "rfind" not in A.norm(s_.value) and any(
-                        isinstance(n_, ast.Subscript) and A.norm(n_.value) == x_ and isinstance(n_.slice, ast.Slice) and n_.slice.upper is not None
-                        and A.norm(n_.slice.upper) == "%s.find(%r)" % (x_, d_version) for n_ in ast.walk(s_.value)):
-                    cut.append(s_)
-        ck.ob(R2, rfa.key(None, "cut-first-hash"), len(cut) == 1, "the symbolic name is cut at the first %r" % d_version if len(cut) == 1 else
+        # the versioned qualified name of a dependency is reduced to what precedes its FIRST version delimiter
+        firsts, lasts = _cut_calls(list(A.walk_body(rfa.node)), d_version)
+        on_name = [c for c in firsts if rfa.nodes(c) and "qualified_name" in {n.attr for (n, a_) in flow_nodes(rfa, c.func.value, rfa.nodes(c)[0]) if isinstance(n, ast.Attribute)}]
+        okc = bool(on_name) and not lasts and all(_prefix_before_first(rfa, c, d_version) for c in firsts)
+        ck.ob(R2, rfa.key(None, "cut-first-hash"), okc, "the symbolic name is cut at the first %r" % d_version if okc else
               "the symbolic dependency name is not cut at the first %r (a version containing it would leak into the name)" % d_version, rfa.where())
-        wc = [s for s in ini.stmts(ast.Assign) if any(A.dotted(t) == "self._qualified_name_without_cluster" for t in s.targets)]
-        ok4 = len(wc) == 1 and "call:find" in ini.deps(wc[0].value) and ("const:%r" % d_cluster) in ini.deps(wc[0].value)
+        # what is stored as the name without its cluster prefix is cut at the FIRST cluster delimiter
+        wc = [(st_, v_) for (st_, v_, _aug) in attr_writes(ini, "self._qualified_name_without_cluster") if ini.nodes(st_)]
+        ok4 = bool(wc)
+        for (st_, v_) in wc:
+            f_, l_ = _cut_calls([n for (n, a_) in flow_nodes(ini, v_, ini.nodes(st_)[0])], d_cluster)
+            ok4 = ok4 and bool(f_) and not l_
         ck.ob(R2, ini.key(None, "without-cluster"), ok4, "the cluster prefix is cut at the first %r" % d_cluster if ok4 else
               "qualified_name_without_cluster is not cut at the first %r" % d_cluster, ini.where())
         # the cluster delimiter is looked for in the name BEFORE the version is appended: the
@@ -478,14 +543,13 @@ def check(ck):
     ck.ob(R3, fq.key(fcall, "lookup-failures-caught"), not esc and len(may) >= 3,
           "everything the lookup may raise (%s) falls back to an external reference" % sorted(may) if not esc else
           "%s raised while looking the function up escapes from_qualified_name: a removed / renamed dependency makes stored metadata unreadable" % sorted(esc), fq.where(fcall))
-    # the fallback is taken when the handler fires
+    # the fallback is taken when the handler fires: from every handler of the lookup, each way out of the
+    # function (return or raise) passes the construction of the unbound external stub — whether the handler
+    # sets a flag that is tested afterwards, falls through to the stub, or builds it itself
     ub = fq.calls("UnboundExternalMementoFunction")
-    okf = len(ub) == 1
-    if okf:
-        gi = fq.enclosing(ub[0], ast.If)
-        flag = gi.test.id if gi is not None and isinstance(gi.test, ast.Name) else None
-        hbodies = [st for t_ in fq.stmts(ast.Try) if any(fq.inside(fcall, b) for b in t_.body) for h in t_.handlers for st in h.body]
-        okf = flag is not None and any(isinstance(st, ast.Assign) and A.norm(st.targets[0]) == flag and A.norm(st.value) == "True" for st in hbodies)
+    stub_nodes = fq.nodes_all(ub)
+    hnodes = [i for t_ in fq.stmts(ast.Try) if any(fq.inside(fcall, b) for b in t_.body) for h in t_.handlers for i in fq.cfg.nodes_of(h)]
+    okf = bool(stub_nodes) and bool(hnodes) and not any(reaches_avoiding(fq, h, stub_nodes, [fq.cfg.exit, fq.cfg.raise_exit]) for h in hnodes)
     ck.ob(R3, fq.key(None, "fallback"), okf, "a failed lookup constructs the unbound external stub" if okf else
           "from_qualified_name no longer falls back to UnboundExternalMementoFunction", fq.where())
     # (b) asserts on the fallback path under the call-site bindings
@@ -495,18 +559,34 @@ def check(ck):
         # nullability of a parse result comes from the pattern: `module` and `function` are
         # mandatory groups (shape check above), `cluster` and `version` optional
         at_call = fq.nodes(call)[0]
+
+        def nullability(v):
+            """NotNone / None / Maybe for the (expanded) argument expression."""
+            if isinstance(v, ast.Constant):
+                return NONE if v.value is None else NOTNONE
+            if isinstance(v, (ast.List, ast.Tuple, ast.Dict, ast.Set, ast.JoinedStr, ast.ListComp, ast.DictComp, ast.SetComp)):
+                return NOTNONE
+            if isinstance(v, ast.IfExp):
+                # `x if x is not None else <d>` / `<d> if x is None else x`: x on its arm is not None
+                arms = []
+                for (arm, pos) in ((v.body, True), (v.orelse, False)):
+                    t_ = v.test
+                    if isinstance(t_, ast.Compare) and len(t_.ops) == 1 and A.is_none(t_.comparators[0]) and A.norm(t_.left) == A.norm(arm) \
+                            and ((isinstance(t_.ops[0], ast.IsNot) and pos) or (isinstance(t_.ops[0], ast.Is) and not pos)):
+                        arms.append(NOTNONE)
+                    else:
+                        arms.append(nullability(arm))
+                return arms[0] if arms[0] == arms[1] else MAYBE
+            if isinstance(v, ast.BoolOp) and isinstance(v.op, ast.Or):
+                return NOTNONE if nullability(v.values[-1]) == NOTNONE else MAYBE
+            xv = A.norm(v)
+            if shape is not None and xv.startswith("FunctionReference.parse_qualified_name(") and xv.endswith(("['module']", "['function']")):
+                return NOTNONE
+            return MAYBE
+
         for k in call.keywords:
-            v = k.value
-            if isinstance(v, ast.Name):
-                xv = fq.xnorm(v, at_call)
-                mandatory = shape is not None and xv.startswith("FunctionReference.parse_qualified_name(") and xv.endswith(("['module']", "['function']"))
-                binding[k.arg] = NOTNONE if mandatory else MAYBE
-            elif isinstance(v, ast.IfExp) and "is not None" in A.norm(v.test):
-                binding[k.arg] = NOTNONE
-            elif isinstance(v, ast.Constant):
-                binding[k.arg] = NONE if v.value is None else NOTNONE
-            else:
-                binding[k.arg] = MAYBE
+            if k.arg is not None:
+                binding[k.arg] = nullability(fq.expand(k.value, at_call))
         ue = ck.repo.func("external.UnboundExternalMementoFunction.__init__")
         env = {}
         defaults = ue.node.args.defaults
